@@ -147,6 +147,38 @@ pub fn main(args: &[String]) -> i32 {
                 res["err"] = json!(format!("PANIC {}", m));
             }
         }
+    } else if which == "lexer" {
+        // a lexer on its own, with a user-supplied rule id map (several names may share an id)
+        let lpath = req["lexer_path"].as_str().unwrap().to_string();
+        let lout = req["lexer_out"].as_str().unwrap().to_string();
+        let map: std::collections::HashMap<String, u32> = req["rule_ids_map"].as_object().map(|m| {
+            m.iter().map(|(k, v)| (k.clone(), v.as_u64().unwrap_or(0) as u32)).collect()
+        }).unwrap_or_default();
+        let r = catch(move || {
+            CTLexerBuilder::<DefaultLexerTypes<u32>>::new()
+                .rule_ids_map(map)
+                .lexer_path(&lpath)
+                .output_path(&lout)
+                .build()
+                .map(|_| ())
+                .map_err(|e| e.to_string())
+        });
+        match r {
+            Ok(Ok(())) => {
+                res["ok"] = json!(true);
+                res["err"] = json!("");
+            }
+            Ok(Err(e)) => {
+                res["ok"] = json!(false);
+                res["err"] = json!(e.chars().take(400).collect::<String>());
+            }
+            Err(m) => {
+                res["ok"] = json!(false);
+                res["err"] = json!(format!("PANIC {}", m));
+            }
+        }
+        res["regenerated"] = json!(false);
+        res["lexer_out"] = gen_digest(Path::new(req["lexer_out"].as_str().unwrap()));
     } else {
         let lpath = req["lexer_path"].as_str().unwrap().to_string();
         let lout = req["lexer_out"].as_str().unwrap().to_string();
